@@ -405,6 +405,17 @@ Proof.
 Qed.
 End BitmapAt.
 
+Lemma bslots_length bm (es : list ent) : length (bslots bm es) = 32.
+Proof. unfold bslots. apply expandf_length. Qed.
+
+Lemma bslots_nth bm (es : list ent) j : j < 32 -> length es = rankf (N.testbit bm) 32 0 ->
+  nth_error (bslots bm es) j =
+  Some (if N.testbit bm (N.of_nat j) then nth_error es (rankf (N.testbit bm) j 0) else None).
+Proof.
+  intros Hj Hwf. unfold bslots. rewrite expandf_nth by assumption.
+  replace (0 + N.of_nat j)%N with (N.of_nat j) by lia. reflexivity.
+Qed.
+
 (* ---- context of an operation with key k at a node on level S d' ---- *)
 Lemma key_child d' p k :
   1 <= S d' -> S d' <= 8 -> (p < 2 ^ shift_of (S d'))%N ->
@@ -489,9 +500,9 @@ Proof.
   assert (R : rankf (N.testbit 0) 32 0 = 0) by (apply rankf_false; intros; apply N.bits_0).
   split; [exact H2|]. split; [exact H4|]. split; [exact H3|]. split; [reflexivity|].
   split; [symmetry; exact R|].
-  split; [apply expandf_length|]. intros c e Hn. exfalso. unfold bslots in Hn.
-  assert (c < 32) by (apply nth_error_Some_lt in Hn; rewrite expandf_length in Hn; exact Hn).
-  rewrite expandf_nth in Hn by (lia || (symmetry; exact R)).
+  split; [apply bslots_length|]. intros c e Hn. exfalso.
+  assert (c < 32) by (apply nth_error_Some_lt in Hn; rewrite bslots_length in Hn; exact Hn).
+  rewrite bslots_nth in Hn by (assumption || (symmetry; exact R)).
   rewrite N.bits_0 in Hn. discriminate.
 Qed.
 
@@ -551,6 +562,14 @@ Proof.
     destruct (rec emptyBitmap (s + chunkBits)%N (hash k) k v); [congruence|reflexivity].
   - rewrite (IH (i + 1)%N es) by assumption. reflexivity.
 Qed.
+
+Lemma unpackLoop_bslots rec s bm es :
+  length es = rankf (N.testbit bm) 32 0 -> (forall e, In e es -> conv rec s e <> None) ->
+  unpackLoop K V hash rec s 32 0 bm es = Some (map (convo rec s) (bslots bm es)).
+Proof. intros H1 H2. unfold bslots. apply unpackLoop_map; assumption. Qed.
+
+Lemma somes_bslots bm es : length es = rankf (N.testbit bm) 32 0 -> somes (bslots bm es) = es.
+Proof. intros H. unfold bslots. apply somes_expandf. exact H. Qed.
 
 Lemma in_somes {A} (e : A) l : In e (somes l) <-> In (Some e) l.
 Proof.
@@ -727,22 +746,21 @@ Proof.
       destruct A1 as (I1 & P1 & _). cbn in P1.
       destruct (unpack_slots d' s p _ IH Hs Hd' Hd8 H30 Hp HS) as (U1 & U2 & U3 & U4 & U5).
       unfold unpack. change (N.to_nat nodeCap) with 32.
-      rewrite (unpackLoop_map (assoc K V eqk hash d') s bm 32 0 es Hwf).
-      2:{ intros e He. apply U5. apply in_somes. unfold bslots. rewrite somes_expandf by exact Hwf. exact He. }
-      fold c. unfold bslots in U1, U2, U3, U4, U5.
-      remember (map (convo (assoc K V eqk hash d') s) (expandf (N.testbit bm) 32 0 es)) as cs0 eqn:Ecs0 in *.
+      rewrite (unpackLoop_bslots (assoc K V eqk hash d') s bm es Hwf).
+      2:{ intros e He. apply U5. apply in_somes. rewrite somes_bslots by exact Hwf. exact He. }
+      fold c.
+      remember (map (convo (assoc K V eqk hash d') s) (bslots bm es)) as cs0 eqn:Ecs0 in *.
       clear Ecs0.
       cbn [AssocPost]. rewrite (flat_bitmap bm es Hwf).
-      pose proof Hget as Hget'. unfold bslots in Hget'.
-      pose proof (U4 (N.to_nat c) Hget') as Hc0n.
+      pose proof (U4 (N.to_nat c) Hget) as Hc0n.
       assert (Hgeta : nth_error (aslots cs0) (N.to_nat c) = Some None)
         by (rewrite aslots_nth, Hc0n; reflexivity).
       pose proof (slot_other d' s p _ k _ Hs Hp U1 Hk eq_refl) as Hoth'. fold c in Hoth'.
       split; [|split].
       * cbn [Inv]. fold s. split; [exact L2|]. split; [exact Hp|]. split; [exact Hs25|].
         pose proof (somes_replace_length cs0 (N.to_nat c) None (Some n1) Hc0n) as SL. cbn in SL.
-        assert (length (somes (expandf (N.testbit bm) 32 0 es)) = length es)
-          by (rewrite somes_expandf by exact Hwf; reflexivity).
+        assert (length (somes (bslots bm es)) = length es)
+          by (rewrite somes_bslots by exact Hwf; reflexivity).
         split; [lia|]. split; [lia|].
         rewrite aslots_replace. cbn [option_map]. apply SlotsOk_replace; [exact U1|exact Hc0|].
         intros e0 E0. inversion E0; subst. cbn [EntryOk]. split; [exact I1|eapply perm_cons_nonnil; exact P1].
@@ -757,6 +775,323 @@ Proof.
         intros e0 E0. inversion E0; subst. cbn [EntryOk]. rewrite <- Hs. exact Hk'.
       * rewrite (flat_bitmap _ _ R2), R1. apply (lift_assoc k v _ _ None _ Hget Hoth). reflexivity.
       * rewrite (lift_mem k _ _ _ Hget Hoth). reflexivity.
+Qed.
+
+(* ---- collision nodes ---- *)
+Lemma in_replaceAt {A} (x y : A) i l : In x (replaceAt i y l) -> x = y \/ In x l.
+Proof.
+  unfold replaceAt. intros H. apply in_app_or in H as [H|[H|H]].
+  - right. rewrite <- (firstn_skipn i l). apply in_or_app. left; exact H.
+  - left. congruence.
+  - right. rewrite <- (firstn_skipn (S i) l). apply in_or_app. right; exact H.
+Qed.
+
+Lemma in_removeAt {A} (x : A) i l : In x (removeAt i l) -> In x l.
+Proof.
+  unfold removeAt. intros H. apply in_app_or in H as [H|H].
+  - rewrite <- (firstn_skipn i l). apply in_or_app. left; exact H.
+  - rewrite <- (firstn_skipn (S i) l). apply in_or_app. right; exact H.
+Qed.
+
+(* the entry found by findIndex, and the list around it *)
+Lemma collision_split k kvs i : NoDupK kvs -> findIndex K V eqk k kvs = Some i ->
+  exists k' v', nth_error kvs i = Some (k', v') /\ eqk k k' = true
+    /\ rem k kvs = removeAt i kvs /\ mem k kvs = true
+    /\ kvs = firstn i kvs ++ (k', v') :: skipn (S i) kvs.
+Proof.
+  intros ND Hf. apply findIndex_some in Hf as (k' & v' & H1 & H2 & H3 & H4).
+  exists k', v'. pose proof (split_at i kvs _ H1) as Hsp.
+  split; [exact H1|]. split; [exact H2|]. split; [|split; [|exact Hsp]].
+  - rewrite Hsp at 1. rewrite Hsp in ND. apply NoDupK_app in ND as (_ & ND & _).
+    cbn in ND. destruct ND as [ND _].
+    unfold removeAt. rewrite rem_app.
+    replace (rem k ((k', v') :: skipn (S i) kvs)) with (rem k (skipn (S i) kvs))
+      by (cbn; rewrite H2; reflexivity).
+    rewrite (rem_id K V eqk k _ H3), (rem_id K V eqk k (skipn (S i) kvs)); [reflexivity|].
+    rewrite (mem_eqk K V eqk eqk_sym eqk_trans k k' _ H2). exact ND.
+  - rewrite (mem_look K V eqk), H4. reflexivity.
+Qed.
+
+Lemma inv_collision_intro d p h kvs : 1 <= d -> d <= 8 -> (p < 2 ^ shift_of d)%N ->
+  (h mod 2 ^ shift_of d = p)%N -> (h < 2 ^ 32)%N -> (forall k v, In (k, v) kvs -> hash k = h) ->
+  NoDupK kvs -> kvs <> [] -> Inv d p (Collision h kvs).
+Proof. intros. destruct d; [lia|]. cbn [Inv]. auto 10. Qed.
+
+Lemma inv_wrap d' p h kvs k :
+  Inv (S d') p (Collision h kvs) -> (hash k mod 2 ^ shift_of (S d') = p)%N -> hash k <> h ->
+  Inv (S d') p (Bitmap (bitpos (shift_of (S d')) h) [Child (Collision h kvs)]).
+Proof.
+  intros HI Hk Hne. pose proof (inv_level _ _ _ HI) as (L1 & L2 & L3).
+  pose proof HI as HI0. cbn [Inv] in HI. destruct HI as (_ & Hp & Hh & Hb & _).
+  set (s := shift_of (S d')) in *.
+  assert (Hs30 : (s <= 30)%N).
+  { destruct (N.le_gt_cases s 30) as [L|L]; [exact L|exfalso].
+    pose proof (shift_gt30 _ L) as L32. apply Hne.
+    rewrite <- (mod_small_eq (hash k) s), <- (mod_small_eq h s) by (apply hash_bound || assumption).
+    congruence. }
+  assert (Hd' : 1 <= d') by (apply shift_le30_pred; exact Hs30).
+  rewrite bitpos_pow2. set (c1 := chunk s h). assert (Hc1 : (c1 < 32)%N) by apply chunk_lt.
+  assert (Hbit : N.testbit (2 ^ c1) c1 = true) by apply N.pow2_bits_true.
+  assert (Hlt : (2 ^ c1 < 2 ^ 32)%N) by (apply N.pow_lt_mono_r; [reflexivity|exact Hc1]).
+  assert (Hrank : rankf (N.testbit (2 ^ c1)) 32 0 = 1).
+  { pose proof (eqb_pow2_rank (2 ^ c1) c1 Hlt Hc1 Hbit) as E. rewrite N.eqb_refl in E.
+    symmetry in E. apply Nat.eqb_eq in E. exact E. }
+  eapply inv_bitmap_intro; try eassumption; [rewrite Hrank; reflexivity|reflexivity|].
+  fold s. split; [apply bslots_length|]. intros cc e Hn.
+  assert (Hcc : cc < 32) by (apply nth_error_Some_lt in Hn; rewrite bslots_length in Hn; exact Hn).
+  rewrite bslots_nth in Hn by (assumption || (rewrite Hrank; reflexivity)).
+  rewrite N.pow2_bits_eqb in Hn. destruct (N.eqb_spec c1 (N.of_nat cc)) as [E|E]; [|discriminate].
+  rewrite rankf_false in Hn.
+  2:{ intros x _ Hx. apply N.pow2_bits_false. lia. }
+  cbn in Hn. inversion Hn; subst e. cbn [EntryOk]. split; [|cbn; apply HI0].
+  replace (N.of_nat cc) with c1 by lia. apply inv_collision_down; assumption.
+Qed.
+
+Lemma assoc_spec d : AssocIH d.
+Proof.
+  induction d as [|d' IH]; intros p n k v HI Hk; [destruct HI|].
+  destruct n as [bm es|nc cs|h kvs].
+  - cbn [assoc]. apply bitmapAssoc_spec; assumption.
+  - pose proof (inv_level _ _ _ HI) as (L1 & L2 & L3).
+    destruct (key_child d' p k L1 L2 L3 Hk) as (Hs & Hk' & Hc0 & Hp').
+    set (s := shift_of (S d')) in *. set (c := chunk s (hash k)) in *.
+    cbn [Inv] in HI. fold s in HI. destruct HI as (_ & Hp & Hs25 & Hnc & Hnc8 & HS).
+    assert (Hd' : 1 <= d') by (apply shift_le30_pred; fold s; lia).
+    pose proof (slot_other d' s p _ k _ Hs Hp HS Hk eq_refl) as Hoth. fold c in Hoth.
+    assert (Hl : length cs = 32)
+      by (destruct HS as [Hl _]; unfold aslots in Hl; rewrite map_length in Hl; exact Hl).
+    destruct (slots_get cs (N.to_nat c) Hl Hc0) as [o Ho].
+    assert (Hget : nth_error (aslots cs) (N.to_nat c) = Some (option_map Child o))
+      by (rewrite aslots_nth, Ho; reflexivity).
+    set (p' := (p + 2 ^ s * N.of_nat (N.to_nat c))%N) in *.
+    cbn [assoc]. fold c. rewrite Ho. change chunkBits with 5%N. rewrite <- Hs.
+    assert (Fin : forall n1 a1 nc', Inv d' p' n1 ->
+              Permutation (flat n1) ((k, v) :: rem k (oflat (option_map Child o))) ->
+              a1 = negb (mem k (oflat (option_map Child o))) ->
+              nc' = Z.of_nat (length (somes (replaceAt (N.to_nat c) (Some n1) cs))) ->
+              AssocPost (S d') p (Array nc cs) k v
+                (ARes (Array nc' (replaceAt (N.to_nat c) (Some n1) cs)) a1)).
+    { intros n1 a1 nc' I1 P1 A1 Enc. cbn [AssocPost]. rewrite !flat_array, aslots_replace.
+      cbn [option_map]. split; [|split].
+      - cbn [Inv]. fold s. split; [exact L2|]. split; [exact Hp|]. split; [exact Hs25|].
+        split; [exact Enc|].
+        pose proof (somes_replace_length cs (N.to_nat c) o (Some n1) Ho) as SL.
+        split; [destruct o; cbn in SL; lia|].
+        rewrite aslots_replace. cbn [option_map]. apply SlotsOk_replace; [exact HS|exact Hc0|].
+        intros e0 E0. inversion E0; subst. cbn [EntryOk].
+        split; [exact I1|eapply perm_cons_nonnil; exact P1].
+      - eapply lift_assoc; eauto.
+      - rewrite (lift_mem k _ _ _ Hget Hoth). exact A1. }
+    pose proof (somes_replace_length cs (N.to_nat c) o) as SL.
+    destruct o as [child|].
+    + destruct (proj2 HS _ _ Hget) as [HIc _].
+      pose proof (IH _ _ k v HIc Hk') as A1.
+      destruct (assoc K V eqk hash d' child (shift_of d') (hash k) k v) as [|n1 a1]; [destruct A1|].
+      destruct A1 as (I1 & P1 & A1). apply Fin; try assumption.
+      specialize (SL (Some n1) Ho). cbn in SL. lia.
+    + assert (HIe : Inv d' p' emptyBitmap) by (apply inv_empty_bitmap; try assumption; lia).
+      pose proof (IH _ _ k v HIe Hk') as A1.
+      destruct (assoc K V eqk hash d' emptyBitmap (shift_of d') (hash k) k v) as [|n1 a1]; [destruct A1|].
+      destruct A1 as (I1 & P1 & _). apply Fin; try assumption; [reflexivity|].
+      specialize (SL (Some n1) Ho). cbn in SL. lia.
+  - pose proof (inv_level _ _ _ HI) as (L1 & L2 & L3).
+    pose proof HI as HI0. cbn [Inv] in HI. destruct HI as (_ & Hp & Hh & Hb & Hkeys & ND & Hne).
+    cbn [assoc]. destruct (hash k =? h)%N eqn:Eh.
+    + apply N.eqb_eq in Eh. destruct (findIndex K V eqk k kvs) as [i|] eqn:Ef.
+      * destruct (collision_split k kvs i ND Ef) as (k' & v' & H1 & H2 & H3 & H4 & H5).
+        assert (P : Permutation (replaceAt i (k, v) kvs) ((k, v) :: rem k kvs)).
+        { rewrite H3. unfold replaceAt, removeAt. symmetry. apply Permutation_middle. }
+        cbn [AssocPost flat]. split; [|split; [exact P|rewrite H4; reflexivity]].
+        apply inv_collision_intro; try assumption.
+        -- intros k1 v1 Hin. apply in_replaceAt in Hin as [E|Hin]; [inversion E; subst k1 v1; exact Eh|eauto].
+        -- eapply NoDupK_perm; [exact eqk_sym|symmetry; exact P|]. cbn.
+           split; [apply mem_rem_same|apply NoDupK_rem; exact ND].
+        -- eapply perm_cons_nonnil; exact P.
+      * apply findIndex_none in Ef.
+        assert (P : Permutation (kvs ++ [(k, v)]) ((k, v) :: rem k kvs)).
+        { rewrite (rem_id K V eqk k _ Ef). symmetry. apply Permutation_cons_append. }
+        cbn [AssocPost flat]. split; [|split; [exact P|rewrite Ef; reflexivity]].
+        apply inv_collision_intro; try assumption.
+        -- intros k1 v1 Hin. apply in_app_or in Hin as [Hin|[E|[]]]; [eauto|inversion E; subst k1 v1; exact Eh].
+        -- eapply NoDupK_perm; [exact eqk_sym|symmetry; exact P|]. cbn.
+           split; [apply mem_rem_same|apply NoDupK_rem; exact ND].
+        -- eapply perm_cons_nonnil; exact P.
+    + apply N.eqb_neq in Eh.
+      pose proof (inv_wrap d' p h kvs k HI0 Hk Eh) as HIw.
+      pose proof (bitmapAssoc_spec d' IH p _ _ k v HIw Hk) as A.
+      destruct (bitmapAssoc K V eqk hash (assoc K V eqk hash d') (bitpos (shift_of (S d')) h)
+                  [Child (Collision h kvs)] (shift_of (S d')) (hash k) k v) as [|n1 a1]; [destruct A|].
+      cbn [AssocPost] in *. cbn [flat flat_map] in A. rewrite app_nil_r in A. exact A.
+Qed.
+
+(* ------------------------------------------------------------------ *)
+(* without *)
+Definition WithoutPost (d : nat) (p : N) (n : node) (k : K) (r : wres K V) : Prop :=
+  match r with
+  | WFail => False
+  | WSame => mem k (flat n) = false
+  | WEmpty => mem k (flat n) = true /\ rem k (flat n) = []
+  | WNew n' del =>
+    del = true /\ mem k (flat n) = true /\ Inv d p n'
+    /\ Permutation (flat n') (rem k (flat n)) /\ flat n' <> []
+  end.
+
+Definition WithoutIH (d : nat) : Prop :=
+  forall p n k, Inv d p n -> (hash k mod 2 ^ shift_of d = p)%N ->
+    WithoutPost d p n k (without K V eqk d n (shift_of d) (hash k) k).
+
+(* ---- pack ---- *)
+Fixpoint maskc (i skip : N) (cs : list (option node)) : list (option node) :=
+  match cs with
+  | [] => []
+  | x :: r => (if (i =? skip)%N then None else x) :: maskc (i + 1) skip r
+  end.
+
+Lemma maskc_id skip cs : forall i, (skip < i)%N -> maskc i skip cs = cs.
+Proof.
+  induction cs as [|x r IH]; intros i H; cbn [maskc]; [reflexivity|].
+  destruct (N.eqb_spec i skip); [lia|]. rewrite IH by lia. reflexivity.
+Qed.
+
+Lemma maskc_replace skip cs : forall i, (i <= skip)%N -> N.to_nat (skip - i) < length cs ->
+  maskc i skip cs = replaceAt (N.to_nat (skip - i)) None cs.
+Proof.
+  induction cs as [|x r IH]; intros i H Hl; cbn [maskc length] in *; [lia|].
+  destruct (N.eqb_spec i skip) as [E|E].
+  - subst. replace (N.to_nat (skip - skip)) with 0 by lia. rewrite replaceAt_0, maskc_id by lia. reflexivity.
+  - replace (N.to_nat (skip - i)) with (S (N.to_nat (skip - (i + 1)))) by lia.
+    rewrite replaceAt_S, IH by lia. reflexivity.
+Qed.
+
+Lemma packLoop_spec skip : forall cs i bm es, packLoop K V i skip cs = (bm, es) ->
+  (forall y, N.testbit bm y = true -> (i <= y /\ y < i + N.of_nat (length cs))%N)
+  /\ expandf (N.testbit bm) (length cs) i es = aslots (maskc i skip cs)
+  /\ length es = rankf (N.testbit bm) (length cs) i.
+Proof.
+  induction cs as [|x r IH]; intros i bm es H; cbn [packLoop] in H.
+  - inversion H; subst. split; [intros y Hy; rewrite N.bits_0 in Hy; discriminate|]. split; reflexivity.
+  - destruct (packLoop K V (i + 1) skip r) as [bm0 es0] eqn:E.
+    destruct (IH _ _ _ E) as (B & X & L).
+    assert (Hi : N.testbit bm0 i = false).
+    { destruct (N.testbit bm0 i) eqn:T; [|reflexivity]. apply B in T. lia. }
+    assert (Keep : (bm, es) = (bm0, es0) ->
+      (forall y, N.testbit bm y = true -> (i <= y /\ y < i + N.of_nat (length (x :: r)))%N)
+      /\ expandf (N.testbit bm) (length (x :: r)) i es = None :: aslots (maskc (i + 1) skip r)
+      /\ length es = rankf (N.testbit bm) (length (x :: r)) i).
+    { intros E0. inversion E0; subst. cbn [length expandf rankf]. rewrite Hi.
+      split; [intros y Hy; apply B in Hy; lia|]. split; [rewrite X; reflexivity|exact L]. }
+    cbn [maskc]. destruct x as [c|].
+    + revert H. destruct (N.eqb_spec i skip) as [Es|Es]; intros H; [apply Keep; congruence|].
+      rewrite N.shiftl_1_l in H. inversion H; subst. cbn [length expandf rankf].
+      rewrite lor_pow2_spec, N.eqb_refl, orb_true_r.
+      assert (Ext : forall y, (i + 1 <= y)%N -> (y < i + 1 + N.of_nat (length r))%N ->
+                N.testbit (N.lor bm0 (2 ^ i)) y = N.testbit bm0 y).
+      { intros y H1 H2. rewrite lor_pow2_spec. destruct (N.eqb_spec y i); [lia|apply orb_false_r]. }
+      rewrite (expandf_ext _ _ _ _ _ Ext), (rankf_ext _ _ _ _ Ext).
+      split; [|split; [rewrite X; reflexivity|cbn [length]; lia]].
+      intros y Hy. rewrite lor_pow2_spec in Hy. apply orb_true_iff in Hy as [Hy|Hy].
+      * apply B in Hy. lia.
+      * apply N.eqb_eq in Hy. lia.
+    + revert H. destruct (i =? skip)%N; intros H; apply Keep; congruence.
+Qed.
+
+Lemma pack_spec d' p nc cs c0 ch :
+  Inv (S d') p (Array nc cs) -> c0 < 32 -> nth_error cs c0 = Some (Some ch) ->
+  exists bm es, pack K V nc cs (N.of_nat c0) = WNew (Bitmap bm es) true
+    /\ (bm < 2 ^ 32)%N /\ length es = rankf (N.testbit bm) 32 0
+    /\ bslots bm es = replaceAt c0 None (aslots cs) /\ Z.of_nat (length es) = (nc - 1)%Z.
+Proof.
+  intros HI Hc0 Hn. cbn [Inv] in HI. destruct HI as (_ & _ & _ & Hnc & _ & [Hl _]).
+  unfold aslots in Hl. rewrite map_length in Hl.
+  unfold pack. destruct (packLoop K V 0 (N.of_nat c0) cs) as [bm es] eqn:E.
+  destruct (packLoop_spec _ _ _ _ _ E) as (B & X & L). rewrite Hl in *.
+  rewrite maskc_replace in X by lia. replace (N.to_nat (N.of_nat c0 - 0)) with c0 in X by lia.
+  assert (Hlen : Z.of_nat (length es) = (nc - 1)%Z).
+  { rewrite <- (somes_expandf _ _ _ _ L), X, somes_aslots.
+    pose proof (somes_replace_length cs c0 _ None Hn) as SL. cbn in SL. lia. }
+  exists bm, es. rewrite Hlen, Z.eqb_refl. split; [reflexivity|]. split.
+  - apply lt_pow2_bits. intros i Hi. destruct (N.testbit bm i) eqn:T; [|reflexivity]. apply B in T. lia.
+  - split; [exact L|]. split; [|reflexivity]. unfold bslots. rewrite X. apply aslots_replace.
+Qed.
+
+(* ---- removing the entry of a set bit ---- *)
+Lemma withoutEntry_spec d' p bm es k e :
+  Inv (S d') p (Bitmap bm es) -> (hash k mod 2 ^ shift_of (S d') = p)%N ->
+  let c := chunk (shift_of (S d')) (hash k) in
+  N.testbit bm c = true ->
+  nth_error (bslots bm es) (N.to_nat c) = Some (Some e) ->
+  mem k (eflat e) = true -> rem k (eflat e) = [] ->
+  WithoutPost (S d') p (Bitmap bm es) k
+    (withoutEntry K V bm es (2 ^ c) (N.to_nat (index bm (2 ^ c)))).
+Proof.
+  intros HI Hk c Ht Hget Hm Hr.
+  pose proof (inv_level _ _ _ HI) as (L1 & L2 & L3).
+  destruct (key_child d' p k L1 L2 L3 Hk) as (Hs & Hk' & Hc0 & Hp').
+  set (s := shift_of (S d')) in *. fold c in Hk', Hc0, Hp'.
+  assert (Hc : (c < 32)%N) by apply chunk_lt.
+  cbn [Inv] in HI. fold s in HI. destruct HI as (_ & Hp & Hs30 & Hbm & Hwf & HS).
+  pose proof (slot_other d' s p _ k _ Hs Hp HS Hk eq_refl) as Hoth. fold c in Hoth.
+  destruct (b_remove bm es c Hbm Hwf Hc Ht) as (R1 & R2 & R3 & R4).
+  assert (P : Permutation (sflat (replaceAt (N.to_nat c) None (bslots bm es))) (rem k (sflat (bslots bm es)))).
+  { apply (lift_without k _ _ _ None Hget Hoth). change (Permutation [] (rem k (eflat e))). rewrite Hr. constructor. }
+  assert (Hmem : mem k (sflat (bslots bm es)) = true) by (rewrite (lift_mem k _ _ _ Hget Hoth); exact Hm).
+  unfold withoutEntry. rewrite (eqb_pow2_rank bm c Hbm Hc Ht).
+  destruct (rankf (N.testbit bm) 32 0 =? 1) eqn:E1.
+  - apply Nat.eqb_eq in E1. cbn [WithoutPost]. rewrite (flat_bitmap bm es Hwf). split; [exact Hmem|].
+    rewrite <- R1, <- (flat_bitmap _ _ R2) in P.
+    assert (E0 : removeAt (N.to_nat (index bm (2 ^ c))) es = []) by (apply length_zero_iff_nil; lia).
+    rewrite E0 in P. cbn in P. apply Permutation_nil in P. exact P.
+  - apply Nat.eqb_neq in E1. cbn [WithoutPost]. rewrite (flat_bitmap bm es Hwf).
+    assert (HS' : SlotsOk (Inv d') s p (replaceAt (N.to_nat c) None (bslots bm es)))
+      by (apply SlotsOk_replace; [exact HS|exact Hc0|discriminate]).
+    split; [reflexivity|]. split; [exact Hmem|]. split; [|split].
+    + eapply inv_bitmap_intro; try eassumption.
+    + rewrite (flat_bitmap _ _ R2), R1. exact P.
+    + rewrite (flat_bitmap _ _ R2), R1. apply (slots_nonempty _ _ _ _ HS').
+      rewrite <- R1, somes_bslots by exact R2.
+      intros E0. rewrite E0 in R2. cbn in R2. lia.
+Qed.
+
+Lemma bitmapWithout_spec d' : WithoutIH d' -> forall p bm es k,
+  Inv (S d') p (Bitmap bm es) -> (hash k mod 2 ^ shift_of (S d') = p)%N ->
+  WithoutPost (S d') p (Bitmap bm es) k
+    (bitmapWithout K V eqk (without K V eqk d') bm es (shift_of (S d')) (hash k) k).
+Proof.
+  intros IH p bm es k HI Hk.
+  pose proof (inv_level _ _ _ HI) as (L1 & L2 & L3).
+  destruct (key_child d' p k L1 L2 L3 Hk) as (Hs & Hk' & Hc0 & Hp').
+  pose proof (withoutEntry_spec d' p bm es k) as WE.
+  pose proof HI as HI0.
+  set (s := shift_of (S d')) in *. set (c := chunk s (hash k)) in *.
+  assert (Hc : (c < 32)%N) by apply chunk_lt.
+  cbn [Inv] in HI. fold s in HI. destruct HI as (_ & Hp & Hs30 & Hbm & Hwf & HS).
+  pose proof (slot_other d' s p _ k _ Hs Hp HS Hk eq_refl) as Hoth. fold c in Hoth.
+  pose proof (b_get bm es c Hbm Hwf Hc) as Hget.
+  unfold bitmapWithout. rewrite bitpos_pow2. fold c. rewrite land_pow2_zero.
+  destruct (N.testbit bm c) eqn:Ht; cbn [negb].
+  - destruct (b_idx_lt bm es c Hbm Hwf Hc Ht) as [e He]. rewrite He in *.
+    pose proof (proj2 HS _ _ Hget) as HE. destruct e as [k0 v0|ch]; cbn [EntryOk] in HE.
+    + rewrite (eqk_sym k0 k). destruct (eqk k k0) eqn:E.
+      * apply (WE _ HI0 Hk Ht Hget); cbn; rewrite E; reflexivity.
+      * cbn [WithoutPost]. rewrite (flat_bitmap bm es Hwf), (lift_mem k _ _ _ Hget Hoth). cbn. rewrite E. reflexivity.
+    + destruct HE as [HIc Hne]. change chunkBits with 5%N. rewrite <- Hs.
+      pose proof (IH _ _ k HIc Hk') as A.
+      destruct (without K V eqk d' ch (shift_of d') (hash k) k) as [| | |n1 del]; cbn [WithoutPost] in A.
+      * destruct A.
+      * cbn [WithoutPost]. rewrite (flat_bitmap bm es Hwf), (lift_mem k _ _ _ Hget Hoth). exact A.
+      * destruct A as [A1 A2]. apply (WE _ HI0 Hk Ht Hget); assumption.
+      * destruct A as (A1 & A2 & A3 & A4 & A5).
+        destruct (b_replace bm es c Hbm Hwf Hc (Child n1) Ht) as [R1 R2].
+        cbn [WithoutPost]. rewrite (flat_bitmap bm es Hwf).
+        split; [exact A1|]. split; [rewrite (lift_mem k _ _ _ Hget Hoth); exact A2|]. split; [|split].
+        -- eapply inv_bitmap_intro; try eassumption. fold s.
+           apply SlotsOk_replace; [exact HS|exact Hc0|].
+           intros e0 E0. inversion E0; subst. cbn [EntryOk]. auto.
+        -- rewrite (flat_bitmap _ _ R2), R1. apply (lift_without k _ _ _ _ Hget Hoth). exact A4.
+        -- rewrite (flat_bitmap _ _ R2), R1. intros E0.
+           pose proof (sflat_replace (bslots bm es) (N.to_nat c) (Some (Child n1))) as P.
+           rewrite E0 in P. apply Permutation_nil in P. apply app_eq_nil in P as [P _]. exact (A5 P).
+  - cbn [WithoutPost]. rewrite (flat_bitmap bm es Hwf), (lift_mem k _ _ _ Hget Hoth). reflexivity.
 Qed.
 
 End Node.
